@@ -300,6 +300,11 @@ func (fr *Frame) applyContract(b *ssa.BasicBlock, ct *Contract, c *ssa.CallCommo
 		}
 	}()
 	if !fr.pure {
+		for _, i := range ct.nonNilParams() {
+			o := vc.addObl("call-pre", root, fmt.Sprintf("%s:nonnil%d", base, i), reach, sNot(sEq(vc.valTerm(args[i]), bvConst(0, 64))), pos)
+			o.Clause = "pointer parameter " + ct.Fn.Params[i].Name() + " != nil"
+			vc.assume(o.Goal)
+		}
 		for k, cl := range ct.Requires {
 			g := vc.evalClause(cl, args, st, fr)
 			o := vc.addObl("call-pre", root, fmt.Sprintf("%s:%d", base, k), reach, g, pos)
